@@ -6,6 +6,7 @@ import (
 	"go/token"
 	"go/types"
 	"math/big"
+	"strings"
 
 	"golang.org/x/tools/go/ssa"
 )
@@ -27,10 +28,11 @@ func init() {
 
 func runC04(c *Ctx) {
 	p := c.Progs["mod"]
-	c.Rule("C04.D", "dedup decision dominates the worker start", 4)
+	c.Rule("C04.D", "dedup decision dominates the worker start", 5)
 	c.Rule("C04.O", "the dedup LRU is owned by the polling goroutine", 1)
 	c.Rule("C04.N", "dedup window ≥ 1000", 1)
-	c.Rule("C04.F", "a worker forwards once", 7)
+	c.Rule("C04.F", "a worker forwards once", 8)
+	ruleLoopSharedCapture(c, p, "C04.F", 1, "agent")
 	c.Rule("C04.P", "the proxy offers each ID exactly once and loses none", 8)
 	ruleNoServerDeadlines(c, p, "C04.P")
 	// … and the agent hands every listed ID to its polling loop: the stand-alone proxy offers
@@ -109,11 +111,66 @@ func runC04(c *Ctx) {
 					gIf, gSucc = gd.If, gd.Succ
 				}
 			}
+			// the same decision taken inside a wrapper method (seen.firstSighting(id)): decided on the
+			// paths — with the lookup hitting, the worker start is unreachable from the lookup; with it
+			// missing, every path from the lookup to the worker start passes Add(key)
+			viaHelper := false
+			if !guarded && key != nil {
+				var gets, addsI []ssa.Instruction
+				EachInstr(f, func(i ssa.Instruction) {
+					if IsCall(i, lruGet) {
+						gets = append(gets, i)
+					}
+					if IsCall(i, lruAdd) {
+						addsI = append(addsI, i)
+					}
+				})
+				sameKey := func(v ssa.Value) bool {
+					for k := 0; k < 4; k++ {
+						if SameValue(v, key) {
+							return true
+						}
+						prm, isP := v.(*ssa.Parameter)
+						if !isP {
+							return false
+						}
+						a := helperParamArgIn(prm, f)
+						if a == nil {
+							return false
+						}
+						v = a
+					}
+					return false
+				}
+				if len(gets) == 1 && len(addsI) == 1 && sameKey(PArgs(CallOf(gets[0]))[1]) && sameKey(PArgs(CallOf(addsI[0]))[1]) && SameValue(PArgs(CallOf(gets[0]))[0], PArgs(CallOf(addsI[0]))[0]) {
+					get := gets[0].(*ssa.Call)
+					env := func(found bool) Env {
+						return func(v ssa.Value) (constant.Value, bool) {
+							if e, isE := v.(*ssa.Extract); isE && e.Tuple == ssa.Value(get) && e.Index == 1 {
+								return constant.MakeBool(found), true
+							}
+							return nil, false
+						}
+					}
+					isGo := func(i ssa.Instruction) bool { return i == ssa.Instruction(g) }
+					hitFound, _ := (&Walk{Target: isGo, Edge: EdgeUnder(env(true)), Ctx: f}).FromInstr(get)
+					hitMiss, _ := (&Walk{Target: isGo, Edge: EdgeUnder(env(false)), Ctx: f}).FromInstr(get)
+					noAdd, _ := (&Walk{Target: isGo, Avoid: func(i ssa.Instruction) bool { return i == addsI[0] }, Edge: EdgeUnder(env(false)), Ctx: f}).FromInstr(get)
+					// and the worker start is only reachable through the lookup
+					before, _ := (&Walk{Target: isGo, Avoid: func(i ssa.Instruction) bool { return i == ssa.Instruction(get) }, Ctx: f}).FromBlock(f.Blocks[0])
+					if hitFound == nil && hitMiss != nil && noAdd == nil && before == nil && InLoop(g.Block()) {
+						guarded, viaHelper = true, true
+					}
+				}
+			}
 			c.Check("C04.D", "poll:worker-only-if-unseen", p, g.Pos(), guarded, "the worker start is control-dependent on the not-found result of previouslySeen.Get(<the ID handed to the worker>)", "the worker is no longer started only when previouslySeen.Get(<its request ID>) misses: a request ID reported twice (the proxy re-lists an ID until its response arrives) is forwarded twice")
 			if key != nil {
 				c.PathIs("C04.D", "poll:key-is-list-element", p, g.Pos(), key, "the deduplicated key is the element of the pending list", "result0:"+ModPath+"/agent/utils.ListPendingRequests[]")
 			}
-			if guarded {
+			if viaHelper {
+				c.OK("C04.D", "poll:unseen-branch-records-key", p, g.Pos(), "every path from a missing lookup to the worker start passes previouslySeen.Add(key, …)")
+			}
+			if guarded && !viaHelper {
 				// every path from the not-found branch back to its loop head passes Add(cache, key, …)
 				isAdd := func(i ssa.Instruction) bool {
 					if !IsCall(i, lruAdd) {
@@ -128,6 +185,22 @@ func runC04(c *Ctx) {
 				c.Check("C04.D", "poll:unseen-branch-records-key", p, g.Pos(), hit == nil, "every path through the not-seen branch records the key with previouslySeen.Add(key, …)", "a path through the not-seen branch does not record the key ("+PathString(p, path)+"): the next list reply containing the same ID starts a second worker")
 			}
 			checkLRUConfined(c, p, "C04.O", newc)
+			// a seen ID is never forgotten on purpose: nothing removes entries from the dedup cache
+			// (a "retry the ones that failed" path re-forwards requests the backend has already handled)
+			{
+				bad := ""
+				for _, fn := range p.AllFuncsIn("agent") {
+					EachInstrRaw(fn, func(i ssa.Instruction) {
+						if cc := CallOf(i); cc != nil {
+							switch CalleeName(cc) {
+							case "(*github.com/golang/groupcache/lru.Cache).Remove", "(*github.com/golang/groupcache/lru.Cache).RemoveOldest", "(*github.com/golang/groupcache/lru.Cache).Clear":
+								bad = CalleeName(cc)[strings.LastIndex(CalleeName(cc), ".")+1:] + " in " + FuncName(fn) + " at " + p.Pos(i.Pos())
+							}
+						}
+					})
+				}
+				c.Check("C04.D", "poll:seen-ids-are-never-forgotten", p, newc.Pos(), bad == "", "no Remove/RemoveOldest/Clear on the dedup cache anywhere in package agent", "the dedup cache is purged on purpose ("+bad+"): an ID taken out again is forwarded a second time when the proxy re-reports it — also for requests the backend has already handled (a failed response upload, say)")
+			}
 			// the window: a constant, or any expression whose interval has a lower bound ≥ 1000
 			// (a flag clamped from below by a helper)
 			it := &interp{p: p, globals: map[string]iv{}}
@@ -365,12 +438,19 @@ func runC04(c *Ctx) {
 // checkLRUConfined: the *lru.Cache returned by lru.New in pollForNewRequests
 // is only used as the receiver of its own methods in that function.
 func checkLRUConfined(c *Ctx, p *Prog, rule string, newc ssa.Instruction) {
+	bad := lruConfinement(p, newc)
+	c.Check(rule, "poll:lru-confined", p, newc.Pos(), bad == "", "the LRU returned by lru.New is only used as the receiver of its own methods inside pollForNewRequests", "the dedup LRU (not goroutine-safe) escapes the polling goroutine: "+bad)
+}
+
+// lruConfinement: "" when the cache made by newc never leaves the goroutine that made it.
+func lruConfinement(p *Prog, newc ssa.Instruction) string {
 	const lruGet = "(*github.com/golang/groupcache/lru.Cache).Get"
 	const lruAdd = "(*github.com/golang/groupcache/lru.Cache).Add"
 	cache := newc.(ssa.Value)
 	// ownership of the cache
 	bad := ""
 	var use func(cache ssa.Value, depth int)
+	var useStruct func(sp ssa.Value, field int, depth int)
 	use = func(cache ssa.Value, depth int) {
 		for _, r := range Refs(cache) {
 			switch x := r.(type) {
@@ -398,8 +478,71 @@ func checkLRUConfined(c *Ctx, p *Prog, rule string, newc ssa.Instruction) {
 				}
 				bad = "passed to " + n
 			case *ssa.DebugRef:
+			case *ssa.Store:
+				// kept in a field of a new wrapper type (type seenIDs struct{ cache *lru.Cache }): the
+				// wrapper is the confined object from here on
+				if fa, isFA := x.Addr.(*ssa.FieldAddr); isFA && x.Val == cache && IsNewType(fa.X.Type()) && depth < 4 {
+					useStruct(fa.X, fa.Field, depth+1)
+					continue
+				}
+				bad = fmt.Sprintf("used by %T at %s (captured, stored or handed to another goroutine)", r, p.Pos(r.Pos()))
 			default:
 				bad = fmt.Sprintf("used by %T at %s (captured, stored or handed to another goroutine)", r, p.Pos(r.Pos()))
+			}
+		}
+	}
+	useStruct = func(sp ssa.Value, field int, depth int) {
+		if depth > 6 {
+			bad = "wrapper nesting too deep"
+			return
+		}
+		for _, r := range Refs(sp) {
+			switch x := r.(type) {
+			case *ssa.DebugRef:
+			case *ssa.FieldAddr:
+				if x.Field != field {
+					continue
+				}
+				for _, rr := range Refs(x) {
+					switch y := rr.(type) {
+					case *ssa.UnOp:
+						use(y, depth+1)
+					case *ssa.Store:
+						if y.Addr != ssa.Value(x) {
+							bad = "the wrapper's field address is stored at " + p.Pos(y.Pos())
+						}
+					case *ssa.DebugRef:
+					default:
+						bad = fmt.Sprintf("the wrapper's field is used by %T at %s", rr, p.Pos(rr.Pos()))
+					}
+				}
+			case *ssa.Return:
+				// a constructor helper: the wrapper continues at its call sites
+				if info := helperOf(x.Parent()); info != nil {
+					for _, site := range info.sites {
+						if call, isCall := site.(*ssa.Call); isCall {
+							useStruct(call, field, depth+1)
+						} else {
+							bad = "the wrapper's constructor is started with go/defer"
+						}
+					}
+					continue
+				}
+				bad = "the wrapper is returned from " + FuncName(x.Parent())
+			case *ssa.Call:
+				if h := syncHelperCallee(x); h != nil {
+					for k, a := range PArgs(&x.Call) {
+						if a == sp && k < len(h.Params) {
+							useStruct(h.Params[k], field, depth+1)
+						}
+					}
+					continue
+				}
+				bad = "the wrapper is passed to " + CalleeName(x.Common())
+			case *ssa.Phi:
+				useStruct(x, field, depth+1)
+			default:
+				bad = fmt.Sprintf("the wrapper is used by %T at %s (captured, stored or handed to another goroutine)", r, p.Pos(r.Pos()))
 			}
 		}
 	}
@@ -407,5 +550,5 @@ func checkLRUConfined(c *Ctx, p *Prog, rule string, newc ssa.Instruction) {
 	if _, isCall := cache.(*ssa.Call); !isCall {
 		bad = "not a local result of lru.New"
 	}
-	c.Check(rule, "poll:lru-confined", p, newc.Pos(), bad == "", "the LRU returned by lru.New is only used as the receiver of its own methods inside pollForNewRequests", "the dedup LRU (not goroutine-safe) escapes the polling goroutine: "+bad)
+	return bad
 }
